@@ -76,8 +76,8 @@ class Func:
         """the body every rule analyses: helpers that are not part of the reference vocabulary are inlined"""
         if self._body is None:
             from .ir import normalise
-            from .inline import inline_helpers
-            self._body = normalise(inline_helpers(self.raw_body, self.tu, self.name))
+            from .inline import inline_helpers, self_getters
+            self._body = normalise(self_getters(inline_helpers(self.raw_body, self.tu, self.name), self.tu, self))
         return self._body
 
     def __repr__(self):
@@ -163,11 +163,56 @@ class TU:
         fd, out = tempfile.mkstemp(prefix='acv-ast-', suffix='.json')
         os.close(fd)
         try:
-            cmd = [CLANG, '-std=c++11', '-DUNIX_HOST_DUINO', '-I' + os.path.join(VERIF, 'shim'),
-                   '-I' + self.src_root, '-fsyntax-only', '-Xclang', '-ast-dump=json',
-                   '-fno-color-diagnostics'] + list(extra_args) + [self.tu_path]
-            with open(out, 'w') as fh:
-                p = subprocess.run(cmd, stdout=fh, stderr=subprocess.PIPE, text=True)
+            tu_path = self.tu_path
+            scratch = None
+            renames = {}
+            for _attempt in range(6):
+                cmd = [CLANG, '-std=c++11', '-DUNIX_HOST_DUINO', '-I' + os.path.join(VERIF, 'shim'),
+                       '-I' + self.src_root, '-fsyntax-only', '-Xclang', '-ast-dump=json',
+                       '-fno-color-diagnostics'] + list(extra_args) + [tu_path]
+                with open(out, 'w') as fh:
+                    p = subprocess.run(cmd, stdout=fh, stderr=subprocess.PIPE, text=True)
+                if p.returncode == 0:
+                    break
+                # the translation unit includes several .cpp files of the library one after the other; a file-local name (a
+                # constant in an unnamed namespace, a static helper) defined in two of them collides here although the library
+                # compiles them apart.  The name is given a per-file spelling (#define around that one #include) and the unit is
+                # parsed again.
+                import re as _re
+                hits = _re.findall(r'([^\s:]+\.cpp):\d+:\d+: error: redefinition of \'(\w+)\'', p.stderr)
+                new = False
+                for fpath, name in hits:
+                    base = os.path.basename(fpath)
+                    if name not in renames.setdefault(base, set()):
+                        renames[base].add(name)
+                        new = True
+                if not new:
+                    break
+                text = open(self.tu_path).read().split('\n')
+                outl = []
+                for ln in text:
+                    m_ = _re.match(r'^\s*#include\s+"([^"]+\.cpp)"', ln)
+                    if m_ and os.path.basename(m_.group(1)) in renames:
+                        b_ = os.path.basename(m_.group(1))
+                        tag = _re.sub(r'\W', '_', b_[:-4])
+                        for nm in sorted(renames[b_]):
+                            outl.append('#define %s %s__%s' % (nm, nm, tag))
+                        outl.append(ln)
+                        for nm in sorted(renames[b_]):
+                            outl.append('#undef %s' % nm)
+                    else:
+                        outl.append(ln)
+                if scratch is None:
+                    fd2, scratch = tempfile.mkstemp(prefix='acv-tu-', suffix='.cpp')
+                    os.close(fd2)
+                with open(scratch, 'w') as fh:
+                    fh.write('\n'.join(outl))
+                tu_path = scratch
+            if scratch is not None:
+                try:
+                    os.unlink(scratch)
+                except OSError:
+                    pass
             if p.returncode != 0:
                 raise AnalysisError('clang could not parse %s against %s:\n%s' %
                                     (self.tu_path, self.src_root, p.stderr[-3000:]))
@@ -603,12 +648,33 @@ class Lowerer:
                 self._local(c)
         out = []
         for c in node.get('inner', []):
+            if c.get('kind') == 'CXXCtorInitializer' and c.get('baseInit') and c.get('inner'):
+                # Base(args...) in the initialiser list: the base constructor runs on this object
+                src = c['inner'][0]
+                while src.get('kind') in TRANSPARENT and src.get('inner'):
+                    src = src['inner'][-1]
+                if src.get('kind') == 'CXXConstructExpr':
+                    bq = _clean_type((c['baseInit'] or {}).get('qualType', ''))
+                    if not bq.startswith('ace_') and '::' in self.func.name:
+                        bq = '::'.join(self.func.name.split('::')[:-2] + [bq])       # written relative to the namespace of the derived class
+                    bname = '%s::%s' % (bq, bq.split('::')[-1].split('<')[0])
+                    args = [self.expr(a) for a in src.get('inner', []) if a.get('kind') != 'CXXDefaultArgExpr']
+                    if bname in self.tu.funcs or bname in getattr(self.tu, 'helpers', {}):      # an implicit base constructor does nothing
+                        out.append(S('expr', E('call', bname, E('this', loc=self.L(src)), args, loc=self.L(src)), loc=self.L(src)))
+                continue
             if c.get('kind') == 'CXXCtorInitializer':
                 tgt = c.get('anyInit')
                 inner = c.get('inner', [])
                 if tgt and inner:
+                    src = inner[0]
+                    if src.get('kind') == 'CXXDefaultInitExpr' and not src.get('inner'):
+                        # `T m = init;` in the class: the initialiser written at the member is what this constructor stores
+                        fd = self.tu.by_id.get(tgt.get('id'), {})
+                        dflt = [x for x in fd.get('inner', []) if 'Comment' not in x.get('kind', '') and 'Attr' not in x.get('kind', '')]
+                        if dflt:
+                            src = dflt[-1]
                     out.append(S('assign', E('field', E('this'), tgt.get('name'), loc=self.L(inner[0])),
-                                 self.expr(inner[0]), '=', loc=self.L(inner[0])))
+                                 self.expr(src), '=', loc=self.L(inner[0])))
         for c in node.get('inner', []):
             if c.get('kind') == 'CompoundStmt':
                 out.extend(self.block(c))
@@ -665,6 +731,9 @@ class Lowerer:
             if cv is not None and self._is_literal_cond(cond):
                 # macro-disabled debug block (`if (0)`) or `if (1)`: dead branch dropped
                 return then if cv else els
+            mv = self._macro_value(cond)
+            if mv is not None:
+                return then if mv else els      # `if (DEBUG_MACRO && x)` with the macro 0: the same dead block
             return [S('if', self.expr(cond), then, els, loc=loc, raw=n)]
         if k == 'SwitchStmt':
             if n.get('hasInit') or n.get('hasVar'):
@@ -714,6 +783,17 @@ class Lowerer:
             return [S('continue', loc=loc)]
         if k in ('CaseStmt', 'DefaultStmt'):
             raise AnalysisError('%s: case label outside the top level of a switch body' % loc)
+        if k == 'CXXForRangeStmt' and len(inner) == 8:
+            # `for (T x : range) body` as the compiler desugars it: { auto&& r = range; auto b = begin(r), e = end(r);
+            #   for (; b != e; ++b) { T x = *b; body } }  - the hidden declarations are ordinary declarations in the AST
+            pre = []
+            for part in inner[0:4]:
+                if part and part.get('kind'):
+                    pre.extend(self.stmt(part))
+            cond = self.expr(inner[4]) if inner[4] and inner[4].get('kind') else None
+            step = self.stmt(inner[5]) if inner[5] and inner[5].get('kind') else []
+            body = (self.stmt(inner[6]) if inner[6] and inner[6].get('kind') else []) + self.block(inner[7])
+            return [S('loop', 'for', pre, cond, step, body, loc=loc, raw=n)]
         if k in ('GotoStmt', 'LabelStmt', 'CXXTryStmt', 'CXXForRangeStmt'):
             raise AnalysisError('%s: %s is not a recognised idiom of this repository' % (loc, k))
         # expression statement
@@ -729,6 +809,32 @@ class Lowerer:
         if k in ('BinaryOperator', 'UnaryOperator'):
             return all(self._is_literal_cond(x) for x in n.get('inner', []))
         return False
+
+    def _macro_value(self, n):
+        """truth value of a condition that a literal (macro constant) decides whatever its variables hold: `0 && x`, `1 || x`,
+        and `x && 0` / `x || 1` when x has no call or assignment; None otherwise"""
+        while n.get('kind') in ('ParenExpr', 'ImplicitCastExpr', 'ConstantExpr') and n.get('inner'):
+            n = n['inner'][-1]
+        if self._is_literal_cond(n):
+            v = self.tu.fold_node(n)
+            return None if v is None else bool(v)
+        if n.get('kind') == 'BinaryOperator' and n.get('opcode') in ('&&', '||') and len(n.get('inner', [])) == 2:
+            l, r = (self._macro_value(x) for x in n['inner'])
+            absorbing = (n['opcode'] == '||')          # the value that decides the whole: false for &&, true for ||
+            if l is absorbing:
+                return absorbing
+            if r is absorbing and not self._has_effect(n['inner'][0]):
+                return absorbing
+            if l is (not absorbing) and r is (not absorbing):
+                return not absorbing
+        return None
+
+    def _has_effect(self, n):
+        k = n.get('kind', '')
+        if k in ('CallExpr', 'CXXMemberCallExpr', 'CXXOperatorCallExpr', 'CXXConstructExpr', 'CompoundAssignOperator') or \
+                (k == 'BinaryOperator' and n.get('opcode') == '=') or (k == 'UnaryOperator' and n.get('opcode') in ('++', '--')):
+            return True
+        return any(self._has_effect(x) for x in n.get('inner', []) if isinstance(x, dict))
 
     def expr_stmt(self, n):
         k = n.get('kind')
